@@ -201,6 +201,7 @@ def cond_fn(name, params, body, pre=(), consts=None):
     The source is registered with linecache so that CrossHair can read the contract."""
     import linecache
     import typing
+    params = list(params) or [('unused_', 'bool')]
     _GEN_COUNT[0] += 1
     fname = '<vf-cond-%s-%d>' % (name, _GEN_COUNT[0])
     sig = ', '.join('%s: %s' % (n, t) for n, t in params)
